@@ -56,7 +56,9 @@ ReadEnd ==
 
 ReadFinal ==   \* everything is quiet: the state read back must be the contract's
   /\ l <= Len(Log) /\ Log[l].t = "final" /\ Ids = {}
-  /\ Log[l].obs = [limit |-> s.limit, busy |-> s.busy, ob |-> s.ob]
+  /\ Log[l].obs.limit = s.limit /\ Log[l].obs.busy = s.busy /\ Log[l].obs.ob = s.ob
+  \* (where the history logged them) the share of every registered partition is the one the contract fixes
+  /\ "bl" \in DOMAIN Log[l].obs => Log[l].obs.bl = [o \in Range(s.reg) |-> s.ol[o]]
   /\ BinsSumToTotal(cfg, s) /\ SharesCurrent(cfg, s)
   /\ l' = l + 1 /\ UNCHANGED <<cfg, s, open, granted>>
 
